@@ -83,12 +83,22 @@ Definition is_disconnected (N : netlist) (e : elem) : bool := forallb (node_dang
 Definition keep_dangling (N : netlist) (keep : list nat) (e : elem) : bool :=
   existsb (fun n => node_dangling N n && natmem n keep) (enodes e).
 (* _remove_dangling / _remove_disconnected: one pass, (new netlist, changed) *)
+(* wires are anonymous: in every netlist the k-th wire is called Wanon<k+1>
+   (re-assigned whenever a netlist is rebuilt from the text of its components) *)
+Fixpoint renum_wires (N : netlist) (k : nat) : netlist :=
+  match N with
+  | [] => []
+  | e :: N' => match etyp e with
+               | TW => Elem (NWire k) TW (enodes e) (ekw e) (eval e) (eic e) :: renum_wires N' (S k)
+               | _ => e :: renum_wires N' k end
+  end.
+Definition count_wires (N : netlist) : nat := length (filter (fun e => ety_eqb (etyp e) TW) N).
 Definition remove_dangling (N : netlist) (skip : list name) (keep : list nat) : netlist * bool :=
   let gone := fun e => is_dangling N e && negb (nmem (ename e) skip) && negb (keep_dangling N keep e) in
-  (filter (fun e => negb (gone e)) N, existsb gone N).
+  (renum_wires (filter (fun e => negb (gone e)) N) 0, existsb gone N).
 Definition remove_disconnected (N : netlist) (skip : list name) (keep : list nat) : netlist * bool :=
   let gone := fun e => is_disconnected N e && negb (nmem (ename e) skip) && negb (keep_dangling N keep e) in
-  (filter (fun e => negb (gone e)) N, existsb gone N).
+  (renum_wires (filter (fun e => negb (gone e)) N) 0, existsb gone N).
 
 (* ---- ComponentNamer: first m >= 1 with <letter>t<m> unused ---- *)
 Fixpoint fresh_from (t : ety) (avoid : list name) (m fuel : nat) : nat :=
@@ -132,62 +142,79 @@ Fixpoint mk_wires (k : nat) (l : list elem) : list elem :=
 Definition lookup_all (S : netlist) (l : list name) : res (list elem) :=
   fold_right (fun x acc => match find S x, acc with Some e, Ok r => Ok (e :: r) | _, _ => Err end) (Ok []) l.
 
-Record cstate := CState { c_net : netlist; c_used : list name; c_wires : nat; c_changed : bool }.
+Record cstate := CState { c_net : netlist; c_used : list name; c_changed : bool }.
 
+(* the element that replaces the first member *)
+Definition new_elem (vr : variant) (els : list elem) (sames : list bool) (add common signed : bool) (nm : name) : res elem :=
+  match els with
+  | [] => Err
+  | first :: _ =>
+      match etyp first with
+      | TNR => Err                                   (* 'Nt1' is not a component name: ValueError *)
+      | t => match combine_ic vr common els sames with
+             | Err => Err
+             | Ok ic => Ok (Elem nm t (enodes first) (ekw first) (combine_value vr add signed els sames) ic)
+             end
+      end
+  end.
 Definition do_combine (vr : variant) (S : netlist) (st : cstate) (order : list name) (sames : list bool)
                       (add series common signed : bool) : res cstate :=
   match lookup_all S order with
   | Err => Err
   | Ok els =>
-    match els with
-    | [] => Err
-    | first :: tl =>
-      match etyp first with
-      | TNR => Err                                   (* 'Nt1' is not a component name: ValueError *)
-      | t =>
-        match combine_ic vr common els sames with
-        | Err => Err
-        | Ok ic =>
-          let nm := fresh_name t (names S ++ c_used st) in
-          let new := Elem nm t (enodes first) (ekw first) (combine_value vr add signed els sames) ic in
-          let kept := filter (fun e => negb (nmem (ename e) order)) (c_net st) in
-          if negb (forallb (fun x => nmem x (names (c_net st))) order) then Err else
-          let ws := if series then mk_wires (c_wires st) tl else [] in
-          Ok (CState (kept ++ new :: ws) (nm :: c_used st) (c_wires st + length ws) true)
-        end
-      end
+    let nm := fresh_name (match els with e :: _ => etyp e | [] => TX end) (names S ++ c_used st) in
+    match new_elem vr els sames add common signed nm with
+    | Err => Err
+    | Ok new =>
+        let kept := filter (fun e => negb (nmem (ename e) order)) (c_net st) in
+        (* net.remove raises when a member is no longer in the netlist being edited *)
+        if negb (forallb (fun x => nmem x (names (c_net st))) order) then Err else
+        let ws := if series then mk_wires (count_wires (c_net st)) (tl els) else [] in
+        Ok (CState (kept ++ new :: ws) (nm :: c_used st) true)
     end
   end.
 
 (* ---- _check_ic ---------------------------------------------------------- *)
-(* (on a set: the verdict does not depend on the enumeration order) *)
-Definition check_ic (vr : variant) (els : list elem) (sames : list bool) : bool :=
-  match els with
-  | [] => true
-  | e0 :: _ =>
-      forallb (fun e => Bool.eqb (has_ic e) (has_ic e0)) els &&
-      (negb (has_ic e0) ||
-       forallb (fun e => keqb (icv e) (icv e0)) els &&
-       (* repaired: a member pointing the other way contradicts a common non-zero value *)
-       (negb (v_polarity vr) || forallb (fun p => snd p || keqb (icv (fst p)) f0) (combine els sames)))
-  end.
+(* [e0]: the member popped from the copy of the set, [els]: all members.
+   When e0 has an initial condition and another member has none, reading the
+   latter's args[1] raises IndexError; when e0 has none the answer is whether
+   all the others have none either. *)
+Definition check_ic (vr : variant) (e0 : elem) (els : list elem) (sames : list bool) : res bool :=
+  let okay := forallb (fun e => Bool.eqb (has_ic e) (has_ic e0)) els in
+  if v_polarity vr then
+    (* repaired: uniform presence, equal values, and no member pointing the other way unless the value is zero *)
+    Ok (okay && (negb (has_ic e0) ||
+                 forallb (fun e => keqb (icv e) (icv e0)) els &&
+                 forallb (fun p => snd p || keqb (icv (fst p)) f0) (combine els sames)))
+  else if negb (has_ic e0) then Ok okay
+  else if negb (forallb has_ic els) then Err
+  else Ok (forallb (fun e => keqb (icv e) (icv e0)) els).
+
+(* ---- equipotential nodes (wires merge node names into classes) ------------- *)
+(* the class of a node is named by its smallest member (the reference node 0 wins) *)
+Definition relabel (lab : nat -> nat) (a b : nat) : nat -> nat :=
+  let la := lab a in let lb := lab b in
+  if Nat.eqb la lb then lab else fun n => if Nat.eqb (lab n) (Nat.max la lb) then Nat.min la lb else lab n.
+Definition cls (N : netlist) : nat -> nat :=
+  fold_left (fun lab e => match etyp e with TW => relabel lab (en1 e) (en2 e) | _ => lab end) N (fun n => n).
 
 (* ---- contract of the graph oracles ----------------------------------------- *)
-(* in_series: the returned set, put in path order [path] (wires that lie on the
-   path included), is a walk of two-terminal elements from node [start]; every
-   node strictly inside the walk is distinct from the others and from the two
-   ends and carries no terminal of any other component (terminals of every
-   component count, including control nodes).  [walk] also yields the
-   orientation of each element (traversed + to -) and the node sequence. *)
+(* in_series: the returned set, put in path order, is a walk of two-terminal
+   elements through node classes starting at the class of [start]; every class
+   strictly inside the walk is distinct from the others and from the two ends
+   and carries exactly the two terminals of its neighbours - terminals of
+   every component other than wires count, including control nodes.  [cwalk]
+   also yields the orientation of each element (traversed + to -). *)
+(* (the output port of a controlled source is a branch between its first two nodes) *)
 Definition two_terminal (e : elem) : bool :=
-  Nat.eqb (length (enodes e)) 2 && match etyp e with TX | TO => false | _ => true end.
-Fixpoint walk (cur : nat) (l : list elem) : option (list (elem * bool * nat)) :=
+  (2 <=? length (enodes e)) && match etyp e with TO | TW => false | _ => true end.
+Fixpoint cwalk (c : nat -> nat) (cur : nat) (l : list elem) : option (list (elem * bool * nat)) :=
   match l with
   | [] => Some []
   | e :: l' =>
-      if negb (two_terminal e) then None
-      else if Nat.eqb (en1 e) cur then option_map (cons (e, true, en2 e)) (walk (en2 e) l')
-      else if Nat.eqb (en2 e) cur then option_map (cons (e, false, en1 e)) (walk (en1 e) l')
+      if negb (two_terminal e) || Nat.eqb (c (en1 e)) (c (en2 e)) then None
+      else if Nat.eqb (c (en1 e)) cur then option_map (cons (e, true, c (en2 e))) (cwalk c (c (en2 e)) l')
+      else if Nat.eqb (c (en2 e)) cur then option_map (cons (e, false, c (en1 e))) (cwalk c (c (en1 e)) l')
       else None
   end.
 Fixpoint inner_nodes (w : list (elem * bool * nat)) : list nat :=
@@ -195,9 +222,83 @@ Fixpoint inner_nodes (w : list (elem * bool * nat)) : list nat :=
 Fixpoint nodup_nat (l : list nat) : bool := match l with [] => true | x :: l' => negb (natmem x l') && nodup_nat l' end.
 Fixpoint nodup_names (l : list name) : bool := match l with [] => true | x :: l' => negb (nmem x l') && nodup_names l' end.
 Definition last_of (start : nat) (w : list (elem * bool * nat)) : nat := last (map snd w) start.
-Definition terminals_at (S : netlist) (n : nat) : nat :=
-  fold_right (fun e acc => length (filter (Nat.eqb n) (enodes e)) + acc) 0 S.
+Definition terminals_at (c : nat -> nat) (S : netlist) (n : nat) : nat :=
+  fold_right (fun e acc => match etyp e with TW => acc | _ => length (filter (fun m => Nat.eqb (c m) n) (enodes e)) + acc end) 0 S.
+Definition same_set (a b : list name) : bool :=
+  Nat.eqb (length a) (length b) && forallb (fun x => nmem x b) a && forallb (fun x => nmem x a) b.
 Definition series_contract (S : netlist) (A : list name) (start : nat) (path : list name) : bool :=
+  let c := cls S in
+  match lookup_all S path with
+  | Err => false
+  | Ok els =>
+    match cwalk c (c start) els with
+    | None => false
+    | Some w =>
+      let inn := inner_nodes w in
+      nodup_names path && same_set A path &&
+      nodup_nat inn && negb (natmem (c start) inn) && negb (natmem (last_of (c start) w) inn) &&
+      forallb (fun n => Nat.eqb (terminals_at c S n) 2) inn
+    end
+  end.
+(* the reference node 0 lies strictly inside the walk: its potential is not private *)
+Definition ground_inside (S : netlist) (start : nat) (path : list name) : bool :=
+  let c := cls S in
+  match lookup_all S path with
+  | Err => false
+  | Ok els => match cwalk c (c start) els with None => false | Some w => natmem 0 (inner_nodes w) end
+  end.
+(* in_parallel: all members are two-terminal elements across one pair of classes *)
+Definition parallel_contract (S : netlist) (A : list name) : bool :=
+  let c := cls S in
+  match lookup_all S A with
+  | Err => false
+  | Ok [] => false
+  | Ok (e0 :: els) =>
+      two_terminal e0 && negb (Nat.eqb (c (en1 e0)) (c (en2 e0))) &&
+      forallb (fun e => two_terminal e &&
+                 ((Nat.eqb (c (en1 e)) (c (en1 e0)) && Nat.eqb (c (en2 e)) (c (en2 e0))) ||
+                  (Nat.eqb (c (en1 e)) (c (en2 e0)) && Nat.eqb (c (en2 e)) (c (en1 e0))))) els
+  end.
+(* the members sit on one and the same pair of node NAMES (no wire in between) *)
+Definition parallel_raw (S : netlist) (A : list name) : bool :=
+  match lookup_all S A with
+  | Ok (e0 :: els) =>
+      forallb (fun e => (Nat.eqb (en1 e) (en1 e0) && Nat.eqb (en2 e) (en2 e0)) || (Nat.eqb (en1 e) (en2 e0) && Nat.eqb (en2 e) (en1 e0))) els
+  | _ => false end.
+(* orientation of every member of [order] relative to the first *)
+Definition parallel_sames (S : netlist) (order : list name) : list bool :=
+  let c := cls S in
+  match lookup_all S order with
+  | Ok (e0 :: els) => true :: map (fun e => Nat.eqb (c (en1 e)) (c (en1 e0))) els
+  | _ => [] end.
+Definition series_sames (S : netlist) (start : nat) (path order : list name) : list bool :=
+  let c := cls S in
+  match lookup_all S path with
+  | Err => []
+  | Ok els =>
+    match cwalk c (c start) els with
+    | None => []
+    | Some w =>
+      let dir := fun x => match filter (fun t => name_eqb (ename (fst (fst t))) x) w with t :: _ => snd (fst t) | [] => true end in
+      match order with [] => [] | x0 :: _ => map (fun x => Bool.eqb (dir x) (dir x0)) order end
+    end
+  end.
+(* the same walk on node NAMES with the wires that lie on it as ordinary
+   two-terminal elements: the form in which the series theorem applies directly *)
+Definition two_terminal_w (e : elem) : bool :=
+  Nat.eqb (length (enodes e)) 2 && match etyp e with TX | TO => false | _ => true end.
+Fixpoint walk (cur : nat) (l : list elem) : option (list (elem * bool * nat)) :=
+  match l with
+  | [] => Some []
+  | e :: l' =>
+      if negb (two_terminal_w e) then None
+      else if Nat.eqb (en1 e) cur then option_map (cons (e, true, en2 e)) (walk (en2 e) l')
+      else if Nat.eqb (en2 e) cur then option_map (cons (e, false, en1 e)) (walk (en1 e) l')
+      else None
+  end.
+Definition terminals_raw (S : netlist) (n : nat) : nat :=
+  fold_right (fun e acc => length (filter (Nat.eqb n) (enodes e)) + acc) 0 S.
+Definition series_raw (S : netlist) (A : list name) (start : nat) (path : list name) : bool :=
   match lookup_all S path with
   | Err => false
   | Ok els =>
@@ -208,56 +309,22 @@ Definition series_contract (S : netlist) (A : list name) (start : nat) (path : l
       nodup_names path &&
       forallb (fun x => nmem x path) A &&
       forallb (fun e => nmem (ename e) A || ety_eqb (etyp e) TW) els &&
-      nodup_nat inn && negb (natmem start inn) && negb (natmem (last_of start w) inn) &&
-      forallb (fun n => Nat.eqb (terminals_at S n) 2) inn
-    end
-  end.
-(* the reference node 0 lies strictly inside the walk: its potential is not private *)
-Definition ground_inside (S : netlist) (start : nat) (path : list name) : bool :=
-  match lookup_all S path with
-  | Err => false
-  | Ok els => match walk start els with None => false | Some w => natmem 0 (inner_nodes w) end
-  end.
-(* in_parallel: all members are two-terminal elements across one node pair *)
-Definition parallel_contract (S : netlist) (A : list name) : bool :=
-  match lookup_all S A with
-  | Err => false
-  | Ok [] => false
-  | Ok (e0 :: els) =>
-      two_terminal e0 && negb (Nat.eqb (en1 e0) (en2 e0)) &&
-      forallb (fun e => two_terminal e &&
-                 ((Nat.eqb (en1 e) (en1 e0) && Nat.eqb (en2 e) (en2 e0)) || (Nat.eqb (en1 e) (en2 e0) && Nat.eqb (en2 e) (en1 e0)))) els
-  end.
-(* orientation of every member of [order] relative to the first *)
-Definition parallel_sames (S : netlist) (order : list name) : list bool :=
-  match lookup_all S order with
-  | Ok (e0 :: els) => true :: map (fun e => Nat.eqb (en1 e) (en1 e0)) els
-  | _ => [] end.
-Definition series_sames (S : netlist) (start : nat) (path order : list name) : list bool :=
-  match lookup_all S path with
-  | Err => []
-  | Ok els =>
-    match walk start els with
-    | None => []
-    | Some w =>
-      let dir := fun x => match filter (fun t => name_eqb (ename (fst (fst t))) x) w with t :: _ => snd (fst t) | [] => true end in
-      match order with [] => [] | x0 :: _ => map (fun x => Bool.eqb (dir x) (dir x0)) order end
+      nodup_nat inn && negb (natmem start inn) && negb (natmem (last_of start w) inn) && negb (natmem 0 inn) &&
+      forallb (fun n => Nat.eqb (terminals_raw S n) 2) inn
     end
   end.
 
 (* ---- the trace of one combine stage -------------------------------------- *)
 (* one group found by _find_combine_subsets: its type, its members (as a set)
    and the order in which list(subset) enumerated them when it was combined *)
-Record sub := Sub { s_type : ety; s_names : list name; s_order : option (list name) }.
+Record sub := Sub { s_type : ety; s_names : list name; s_order : option (list name); s_pop : option name }.
 (* one answer of in_series / in_parallel with, for a series answer, the
    witness of its contract: a start node and the members in path order *)
-Record aset := ASet { a_names : list name; a_start : nat; a_path : list name; a_subs : list sub }.
+Record aset := ASet { a_names : list name; a_start : nat; a_path : list name; a_rstart : nat; a_rpath : list name; a_subs : list sub }.
 Record stage := Stage { g_is_series : bool; g_asets : list aset }.
 
 Definition subset_of (S : netlist) (A : list name) (t : ety) : list name :=
   filter (fun x => match find S x with Some e => ety_eqb (etyp e) t | None => false end) A.
-Definition same_set (a b : list name) : bool :=
-  Nat.eqb (length a) (length b) && forallb (fun x => nmem x b) a && forallb (fun x => nmem x a) b.
 (* contract of _find_combine_subsets: exactly the groups of equal type with
    more than one member, each once *)
 Definition combinable := [TV; TI; TR; TNR; TC; TL; TY; TZ].
@@ -287,13 +354,14 @@ Definition parallel_action (t : ety) : res action :=
 
 Record sflags := SFlags { f_subsets : bool;    (* every _find_combine_subsets answer met its contract *)
                           f_orders : bool;     (* an enumeration order was recorded exactly for the groups the model combines *)
-                          f_contract : bool;   (* every in_series / in_parallel answer met its contract *)
+                          f_contract : bool;   (* every in_series / in_parallel answer in which something was combined met its contract *)
                           f_ground : bool;     (* no series answer has the reference node strictly inside *)
-                          f_kinds : bool }.    (* the stages of the trace are the stages the model runs *)
-Definition fl_orders (fl : sflags) (b : bool) : sflags := SFlags (f_subsets fl) (f_orders fl && b) (f_contract fl) (f_ground fl) (f_kinds fl).
-Definition fl_subsets (fl : sflags) (b : bool) : sflags := SFlags (f_subsets fl && b) (f_orders fl) (f_contract fl) (f_ground fl) (f_kinds fl).
-Definition fl_contract (fl : sflags) (b g : bool) : sflags := SFlags (f_subsets fl) (f_orders fl) (f_contract fl && b) (f_ground fl && g) (f_kinds fl).
-Definition fl_kinds (fl : sflags) (b : bool) : sflags := SFlags (f_subsets fl) (f_orders fl) (f_contract fl) (f_ground fl) (f_kinds fl && b).
+                          f_kinds : bool;      (* the stages of the trace are the stages the model runs *)
+                          f_raw : bool }.      (* every answer in which something was combined is a chain / group on node names *)
+Definition fl_orders (fl : sflags) (b : bool) : sflags := SFlags (f_subsets fl) (f_orders fl && b) (f_contract fl) (f_ground fl) (f_kinds fl) (f_raw fl).
+Definition fl_subsets (fl : sflags) (b : bool) : sflags := SFlags (f_subsets fl && b) (f_orders fl) (f_contract fl) (f_ground fl) (f_kinds fl) (f_raw fl).
+Definition fl_contract (fl : sflags) (b g r : bool) : sflags := SFlags (f_subsets fl) (f_orders fl) (f_contract fl && b) (f_ground fl && g) (f_kinds fl) (f_raw fl && r).
+Definition fl_kinds (fl : sflags) (b : bool) : sflags := SFlags (f_subsets fl) (f_orders fl) (f_contract fl) (f_ground fl) (f_kinds fl && b) (f_raw fl).
 Definition no_order (sb : sub) : bool := match s_order sb with None => true | Some _ => false end.
 
 Definition do_sub (vr : variant) (series : bool) (S : netlist) (a : aset) (acc : res (cstate * sflags)) (sb : sub) : res (cstate * sflags) :=
@@ -310,16 +378,28 @@ Definition do_sub (vr : variant) (series : bool) (S : netlist) (a : aset) (acc :
       | Err => Err
       | Ok els =>
         (* _check_ic is consulted for L in series and C in parallel *)
-        if common && negb (check_ic vr els sames) then Ok (st, fl_orders fl (no_order sb))
-        else
+        let chk := if common then
+                     match s_pop sb with
+                     | None => Ok (true, false)
+                     | Some p => match find S p with
+                                 | None => Ok (true, false)
+                                 | Some e0 => match check_ic vr e0 els sames with Err => Err | Ok b => Ok (b, nmem p (s_names sb)) end
+                                 end
+                     end
+                   else Ok (true, match s_pop sb with None => true | Some _ => false end) in
+        match chk with
+        | Err => Err
+        | Ok (false, okp) => Ok (st, fl_orders fl (no_order sb && okp))
+        | Ok (true, okp) =>
           match s_order sb with
           | None => Ok (st, fl_orders fl false)
           | Some o =>
             match do_combine vr S st o sames add series common signed with
             | Err => Err
-            | Ok st' => Ok (st', fl_orders fl (same_set o (s_names sb) && nodup_names o))
+            | Ok st' => Ok (st', fl_orders fl (same_set o (s_names sb) && nodup_names o && okp))
             end
           end
+        end
       end
     end
   end.
@@ -332,14 +412,16 @@ Definition do_aset (vr : variant) (series : bool) (S : netlist) (skip : list nam
     let A := filter (fun x => negb (nmem x skip)) (a_names a) in
     (* net._find_combine_subsets looks the names up in the netlist being edited: KeyError when one is gone *)
     if negb (forallb (fun x => nmem x (names (c_net st))) A) then Err else
-    let fl1 := fl_contract fl (if series then series_contract S (a_names a) (a_start a) (a_path a) else parallel_contract S (a_names a))
-                              (negb (series && ground_inside S (a_start a) (a_path a))) in
+    let combines := existsb (fun sb => negb (no_order sb)) (a_subs a) in
+    let fl1 := fl_contract fl (negb combines || (if series then series_contract S (a_names a) (a_start a) (a_path a) else parallel_contract S (a_names a)))
+                              (negb (series && combines && ground_inside S (a_start a) (a_path a)))
+                              (negb combines || (if series then series_raw S (a_names a) (a_rstart a) (a_rpath a) else parallel_raw S (a_names a))) in
     fold_left (do_sub vr series S a) (a_subs a) (Ok (st, fl_subsets fl1 (subsets_ok S A (a_subs a))))
   end.
 (* one _simplify_combine_series / _simplify_combine_parallel stage on netlist S *)
-Definition do_stage (vr : variant) (series : bool) (S : netlist) (skip : list name) (wires : nat) (fl : sflags) (asets : list aset)
+Definition do_stage (vr : variant) (series : bool) (S : netlist) (skip : list name) (fl : sflags) (asets : list aset)
   : res (cstate * sflags) :=
-  fold_left (do_aset vr series S skip) asets (Ok (CState S [] wires false, fl)).
+  fold_left (do_aset vr series S skip) asets (Ok (CState S [] false, fl)).
 
 (* ---- simplify ---------------------------------------------------------------- *)
 Record sargs := SArgs { g_select : option (list name); g_ignore : option (list name); g_keep : list nat; g_passes : nat;
@@ -347,21 +429,21 @@ Record sargs := SArgs { g_select : option (list name); g_ignore : option (list n
 Definition skip_of (g : sargs) (N : netlist) : list name :=
   (match g_select g with None => [] | Some sel => filter (fun x => negb (nmem x sel)) (names N) end) ++
   (match g_ignore g with None => [] | Some ig => ig end).
-Record sstate := SState { x_net : netlist; x_wires : nat; x_flags : sflags; x_trace : list stage }.
+Record sstate := SState { x_net : netlist; x_flags : sflags; x_trace : list stage }.
 
 Definition run_stage (vr : variant) (series : bool) (skip : list name) (x : sstate) : res (sstate * bool) :=
   match x_trace x with
-  | [] => Ok (SState (x_net x) (x_wires x) (fl_kinds (x_flags x) false) [], false)
+  | [] => Ok (SState (x_net x) (fl_kinds (x_flags x) false) [], false)
   | tr :: rest =>
-    match do_stage vr series (x_net x) skip (x_wires x) (fl_kinds (x_flags x) (Bool.eqb (g_is_series tr) series)) (g_asets tr) with
+    match do_stage vr series (renum_wires (x_net x) 0) skip (fl_kinds (x_flags x) (Bool.eqb (g_is_series tr) series)) (g_asets tr) with
     | Err => Err
-    | Ok (st, fl) => Ok (SState (c_net st) (c_wires st) fl rest, c_changed st)
+    | Ok (st, fl) => Ok (SState (c_net st) fl rest, c_changed st)
     end
   end.
 Definition one_pass (vr : variant) (g : sargs) (skip : list name) (x : sstate) : res (sstate * bool) :=
   let '(n1, ch1) := if g_dangling g then remove_dangling (x_net x) skip (g_keep g) else (x_net x, false) in
   let '(n2, ch2) := if g_disconnected g then remove_disconnected n1 skip (g_keep g) else (n1, false) in
-  let x2 := SState n2 (x_wires x) (x_flags x) (x_trace x) in
+  let x2 := SState n2 (x_flags x) (x_trace x) in
   match (if g_series g then run_stage vr true skip x2 else Ok (x2, false)) with
   | Err => Err
   | Ok (x3, ch3) =>
@@ -380,7 +462,7 @@ Fixpoint passes_loop (vr : variant) (g : sargs) (skip : list name) (n : nat) (x 
   end.
 Definition simplify (vr : variant) (g : sargs) (N : netlist) (trace : list stage) : res sstate :=
   passes_loop vr g (skip_of g N) (if Nat.eqb (g_passes g) 0 then 100 else g_passes g)
-              (SState N 0 (SFlags true true true true true) trace).
+              (SState N (SFlags true true true true true true) trace).
 
 (* ---- the other rewrites ------------------------------------------------------ *)
 (* renumber / _rename_nodes: every node name goes through the map *)
@@ -442,11 +524,11 @@ End Model.
 Arguments Elem {K}. Arguments ename {K}. Arguments etyp {K}. Arguments enodes {K}. Arguments ekw {K}. Arguments eval {K}. Arguments eic {K}.
 Arguments en1 {K}. Arguments en2 {K}. Arguments has_ic {K}. Arguments icv {K}. Arguments find {K}. Arguments names {K}. Arguments ksum {K}.
 Arguments remove_dangling {K}. Arguments remove_disconnected {K}. Arguments combine_value {K}. Arguments combine_ic {K}.
-Arguments do_combine {K}. Arguments check_ic {K}. Arguments simplify {K}.
+Arguments do_combine {K}. Arguments new_elem {K}. Arguments check_ic {K}. Arguments simplify {K}.
 Arguments series_contract {K}. Arguments parallel_contract {K}. Arguments parallel_sames {K}. Arguments series_sames {K}.
-Arguments ground_inside {K}. Arguments terminals_at {K}.
+Arguments ground_inside {K}. Arguments terminals_at {K}. Arguments cls {K}. Arguments cwalk {K}. Arguments series_raw {K}. Arguments parallel_raw {K}. Arguments renum_wires {K}. Arguments count_wires {K}. Arguments two_terminal_w {K}. Arguments terminals_raw {K}.
 Arguments rename_nodes {K}. Arguments x_net {K}. Arguments x_flags {K}. Arguments x_trace {K}.
-Arguments CState {K}. Arguments c_net {K}. Arguments c_used {K}. Arguments c_wires {K}. Arguments c_changed {K}.
+Arguments CState {K}. Arguments c_net {K}. Arguments c_used {K}. Arguments c_changed {K}.
 Arguments walk {K}. Arguments inner_nodes {K}. Arguments lookup_all {K}.
 Arguments mk_wires {K}. Arguments mk_wire {K}. Arguments ksgn {K}. Arguments two_terminal {K}. Arguments last_of {K}.
 Arguments switch_closed {K}. Arguments switch_closed_spec {K}. Arguments switch_active {K}.
